@@ -409,6 +409,14 @@ def rules(ctx: Ctx) -> None:
         raise AnalysisError(f"fold loop over the statement holders not found in {fold.qual} ({len(loops)} candidates)")
     L = loops[0]
     hname = u(L.ast.target)
+    # the accumulated graph is always a graph of its own (DiGraph(), the result of compose / relabel): bound to a statement holder's graph
+    # itself, the in-place steps of the fold (DROP, tags, edges) edit that statement's result
+    acc_names = {t.id for n_ in ast.walk(L.ast) if isinstance(n_, ast.Assign) and any(isinstance(c_, ast.Call) and u(c_.func).endswith("compose") for c_ in ast.walk(n_.value)) for t in n_.targets if isinstance(t, ast.Name)}
+    for an in sorted(acc_names):
+        aliased = [d for kind_, d in prog.local_defs(fold, an) if kind_ in ("assign", "annassign", "walrus")
+                   for v in prog.value_sources(fold, d.value) if isinstance(v, ast.Attribute) and isinstance(v.value, ast.Name) and v.value.id == hname]
+        ctx.ob("R03.2", "fold:accumulator-is-never-a-statement's-own-graph", not aliased, loc(fold.mod, aliased[0]) if aliased else loc(fold.mod, L.ast),
+               f"`{an}` is " + (f"bound to `{u(aliased[0].value)[:60]}`: it can be the graph object of a statement holder, which the fold then edits in place" if aliased else "always a fresh graph"))
     in_loop = {n for n in cfg.nodes if n != L.id and cfg.reach(L.id, n) and cfg.reach(n, L.id)}
 
     def folded_kw(call: ast.Call, kw: str):
